@@ -80,8 +80,7 @@ def is_valid_indexed_attestation (s : State) (indices : List Nat) (sig_ok : Bool
   -- Verify indices are sorted and unique
   if indices.length = 0 || !sortedUnique indices then return false
   -- pubkeys = [state.validators[i].pubkey for i in indices]
-  for i in indices do
-    let _ ← idx s.validators i "indexed_attestation.index_out_of_range"
+  let _pubkeys ← indices.mapM fun i => idx s.validators i "indexed_attestation.index_out_of_range"
   -- Verify aggregate signature
   pure sig_ok
 
@@ -189,12 +188,14 @@ def process_proposer_slashing (cfg : Config) (s : State) (proposer_slashing : Pr
   require proposer_slashing.signed_header_2.sig_ok "proposer_slashing.signature_2"
   slash_validator cfg s header_1.proposer_index
 
-/-- `set(a).intersection(b)`, sorted -/
+/-- insert into a strictly increasing list, keeping it strictly increasing (an element already present is not repeated) -/
+def insertSortedUniq (x : Nat) : List Nat → List Nat
+  | [] => [x]
+  | y :: ys => if x < y then x :: y :: ys else if x = y then y :: ys else y :: insertSortedUniq x ys
+
+/-- `sorted(set(a).intersection(b))`: the common elements, each once, in increasing order -/
 def sortedIntersection (a b : List Nat) : List Nat :=
-  let rec insertSorted (x : Nat) : List Nat → List Nat
-    | [] => [x]
-    | y :: ys => if x ≤ y then x :: y :: ys else y :: insertSorted x ys
-  ((a.filter (b.contains ·)).eraseDups).foldl (fun acc x => insertSorted x acc) []
+  (a.filter (b.contains ·)).foldl (fun acc x => insertSortedUniq x acc) []
 
 /-- `process_attester_slashing` -/
 def process_attester_slashing (cfg : Config) (s : State) (attester_slashing : AttesterSlashing) : SM State := do
@@ -465,26 +466,45 @@ def is_partially_withdrawable_validator (cfg : Config) (v : Validator) (balance 
   let has_excess_balance := balance > cfg.MAX_EFFECTIVE_BALANCE
   has_eth1_withdrawal_credential v && has_max_effective_balance && has_excess_balance
 
-/-- `get_expected_withdrawals` [New in Capella] -/
-def get_expected_withdrawals (cfg : Config) (s : State) : SM (List Withdrawal) := do
-  let epoch := get_current_epoch cfg s
-  let mut withdrawal_index := s.next_withdrawal_index
-  let mut validator_index := s.next_withdrawal_validator_index
-  let mut withdrawals : List Withdrawal := []
-  let bound := min s.validators.length cfg.MAX_VALIDATORS_PER_WITHDRAWALS_SWEEP
-  for _ in [0:bound] do
+/-- The body of the sweep loop of `get_expected_withdrawals`, `n` iterations left:
+```python
+    for _ in range(bound):
+        validator = state.validators[validator_index]
+        balance = state.balances[validator_index]
+        if is_fully_withdrawable_validator(validator, balance, epoch):
+            withdrawals.append(Withdrawal(index=withdrawal_index, validator_index=validator_index,
+                address=ExecutionAddress(validator.withdrawal_credentials[12:]), amount=balance))
+            withdrawal_index += WithdrawalIndex(1)
+        elif is_partially_withdrawable_validator(validator, balance):
+            withdrawals.append(Withdrawal(..., amount=balance - MAX_EFFECTIVE_BALANCE))
+            withdrawal_index += WithdrawalIndex(1)
+        if len(withdrawals) == MAX_WITHDRAWALS_PER_PAYLOAD:
+            break
+        validator_index = ValidatorIndex((validator_index + 1) % len(state.validators))
+    return withdrawals
+``` -/
+def withdrawals_sweep (cfg : Config) (s : State) (epoch : Nat) :
+    (n : Nat) → (withdrawal_index validator_index : Nat) → (withdrawals : List Withdrawal) → SM (List Withdrawal)
+  | 0, _, _, withdrawals => pure withdrawals
+  | n + 1, withdrawal_index, validator_index, withdrawals => do
     let validator ← idx s.validators validator_index "withdrawals.validator_index"
     let balance ← idx s.balances validator_index "withdrawals.balance_index"
-    if is_fully_withdrawable_validator validator balance epoch then
-      withdrawals := withdrawals ++ [⟨withdrawal_index, validator_index, validator.withdrawal_credentials.extract 12 32, balance⟩]
-      withdrawal_index ← u64 (withdrawal_index + 1) "withdrawal_index"
-    else if is_partially_withdrawable_validator cfg validator balance then
-      withdrawals := withdrawals ++ [⟨withdrawal_index, validator_index, validator.withdrawal_credentials.extract 12 32,
-        balance - cfg.MAX_EFFECTIVE_BALANCE⟩]
-      withdrawal_index ← u64 (withdrawal_index + 1) "withdrawal_index"
-    if withdrawals.length = cfg.MAX_WITHDRAWALS_PER_PAYLOAD then break
-    validator_index := (validator_index + 1) % s.validators.length
-  pure withdrawals
+    let address := validator.withdrawal_credentials.extract 12 32
+    let (withdrawals, next_index) :=
+      if is_fully_withdrawable_validator validator balance epoch then
+        (withdrawals ++ [⟨withdrawal_index, validator_index, address, balance⟩], withdrawal_index + 1)
+      else if is_partially_withdrawable_validator cfg validator balance then
+        (withdrawals ++ [⟨withdrawal_index, validator_index, address, balance - cfg.MAX_EFFECTIVE_BALANCE⟩], withdrawal_index + 1)
+      else (withdrawals, withdrawal_index)
+    let withdrawal_index ← u64 next_index "withdrawal_index"
+    if withdrawals.length = cfg.MAX_WITHDRAWALS_PER_PAYLOAD then pure withdrawals  -- break
+    else withdrawals_sweep cfg s epoch n withdrawal_index ((validator_index + 1) % s.validators.length) withdrawals
+
+/-- `get_expected_withdrawals` [New in Capella] -/
+def get_expected_withdrawals (cfg : Config) (s : State) : SM (List Withdrawal) :=
+  let epoch := get_current_epoch cfg s
+  let bound := min s.validators.length cfg.MAX_VALIDATORS_PER_WITHDRAWALS_SWEEP
+  withdrawals_sweep cfg s epoch bound s.next_withdrawal_index s.next_withdrawal_validator_index []
 
 /-- `process_withdrawals` [New in Capella] -/
 def process_withdrawals (cfg : Config) (s : State) (payload : ExecutionPayload) : SM State := do
